@@ -139,6 +139,34 @@ def check_c06(idx: Index, tier: str, res: Result) -> None:
     res.check("FRESH", "the clone is made inside the per-scenario loop", in_loop, add.loc(), add.qual, "for name, scenario in ...",
               "the model is cloned once for all scenarios", key="FRESH/add_scenarios/loop")
 
+    # ---- SCENDICT: a scenario's own constants/points dicts never alias manager-level tables -----------------------
+    # (configure_settings, the REST settings handler and set_property_value write into scenario.constants/points in place)
+    nsd = 0
+    for qual in ("ScenarioManagerSd.add_scenarios", "ScenarioManagerSd.load_scenarios"):
+        fi = idx.func(SM_SD, qual)
+        for n in walk_no_nested(fi.node):
+            cand = []
+            if isinstance(n, ast.Assign) and isinstance(n.targets[0], ast.Subscript) and const_str(n.targets[0].slice) in ("constants", "points"):
+                cand.append((const_str(n.targets[0].slice), n.value, n))
+            if isinstance(n, ast.Call) and call_name(n) == "setdefault" and len(n.args) == 2 and const_str(n.args[0]) in ("constants", "points"):
+                cand.append((const_str(n.args[0]), n.args[1], n))
+            if isinstance(n, ast.Call) and call_name(n) == "get" and len(n.args) == 2 and const_str(n.args[0]) in ("constants", "points") \
+                    and isinstance(n.args[1], ast.Attribute):
+                cand.append((const_str(n.args[0]), n.args[1], n))
+            for kind, v, node in cand:
+                nsd += 1
+                shared = isinstance(v, (ast.Attribute, ast.Name)) and not _is_fresh(v)
+                if isinstance(v, ast.Name):
+                    shared = v.id not in ("value",) and not any(
+                        isinstance(a, ast.Assign) and isinstance(a.targets[0], ast.Name) and a.targets[0].id == v.id and _is_fresh(a.value)
+                        for a in walk_no_nested(fi.node))
+                res.check("ALIAS", "%s: scenario['%s'] starts from a fresh dict" % (qual, kind), not shared, fi.loc(node), fi.qual, src(node)[:100],
+                          "%s makes a scenario's '%s' dictionary the manager-level object %s: SimulationScenario keeps it as its own "
+                          "settings table and configure_settings / the REST settings / set_property_value write into it in place, so one "
+                          "scenario's re-parameterisation changes the base settings and every other scenario that inherited them"
+                          % (qual, kind, src(v)), key="ALIAS/%s/scenario[%s]<-%s" % (qual, kind, src(v)))
+    res.floor("scenario settings-dict initialisations", nsd, 4)
+
     # ---- REBIND: settings are merged, never substituted ---------------------------------------------------------
     nreb = 0
     for rel, qual in SCENARIO_OPS:
@@ -366,6 +394,25 @@ def check_c07(idx: Index, tier: str, res: Result) -> None:
         for kind, base in (("constants", "base_constants"), ("points", "base_points")):
             loops = [lp for lp in walk_no_nested(fi.node) if isinstance(lp, ast.For) and src(lp.iter) == "self.%s.items()" % base]
             ok = False
+            # form 2: for k, v in base.items(): <scenario's kind dict>.setdefault(k, v)
+            for lp in loops:
+                tv = [e.id for e in lp.target.elts] if isinstance(lp.target, ast.Tuple) else []
+                for c in iter_calls(lp):
+                    if call_name(c) == "setdefault" and [src(a) for a in c.args] == tv:
+                        recv = c.func.value
+                        rtxt = src(recv).replace("'", '"')
+                        if ('["%s"]' % kind) in rtxt:
+                            ok = True
+                        elif isinstance(recv, ast.Name):
+                            for a in walk_no_nested(fi.node):
+                                if isinstance(a, ast.Assign) and isinstance(a.targets[0], ast.Name) and a.targets[0].id == recv.id and \
+                                        ('"%s"' % kind) in src(a.value).replace("'", '"'):
+                                    ok = True
+            # form 3: {**self.base, **scenario.get(kind, {})}
+            for dct in [d for d in walk_no_nested(fi.node) if isinstance(d, ast.Dict) and None in d.keys]:
+                stars = [src(v) for k, v in zip(dct.keys, dct.values) if k is None]
+                if len(stars) == 2 and stars[0] == "self.%s" % base and ('"%s"' % kind) in stars[1].replace("'", '"'):
+                    ok = True
             for lp in loops:
                 for g in ast.walk(lp):
                     if isinstance(g, ast.If) and isinstance(g.test, ast.UnaryOp) and isinstance(g.test.op, ast.Not) or \
